@@ -1123,13 +1123,14 @@ def build_cases(w):
     cases = []
     counts = {}
     # ---- meaning: single operation x tables
-    n_generic = (8, 10, 8) if quick else (155, 220, 120)
-    n_time = 28 if quick else 420
+    n_generic = (8, 10, 8) if quick else (155, 180, 100)
+    n_time = 28 if quick else 300
     n_int = 10 if quick else 120
     for name in OPS8:
         psets = singles[name]
-        if quick and len(psets) > 70:
-            keep = rng.sample(range(len(psets)), 70)
+        cap = 70 if quick else 140
+        if len(psets) > cap:
+            keep = rng.sample(range(len(psets)), cap)
             psets = [psets[i] for i in sorted(keep)]
             # make sure every optional subset / flag combination of the op is still present
             seen = {sig(p) for p, _ in psets}
